@@ -68,6 +68,14 @@ def encStart (cfg : Cfg) (fresh : String) (d : Int) (n : Name) (as : List Attr) 
     .start (fillNs cfg n) (dropXmlns (fillNs cfg n) (completeAttrs cfg fresh as))
   else .start n (dropXmlns n as)
 
+/-- the variant that runs the duplicate-`xmlns` loop first, on the name the caller gave (before
+the stamping step assigns the stream namespace): NOT what the code does, see
+`C05_early_filter_duplicates_xmlns` -/
+def encStartEarly (cfg : Cfg) (fresh : String) (d : Int) (n : Name) (as : List Attr) : Tok :=
+  if d == 1 && isStanzaEmptySpace n then
+    .start (fillNs cfg n) (completeAttrs cfg fresh (dropXmlns n as))
+  else .start n (dropXmlns n as)
+
 /-- end element written when the depth *before* the decrement is `d` -/
 def encStop (cfg : Cfg) (d : Int) (n : Name) : Tok :=
   if d == 1 && n.space == "" && isStanzaEmptySpace n then .stop { n with space := cfg.ns } else .stop n
